@@ -116,6 +116,19 @@ Theorem C04_lone_wildcard_verify : forall late log chain,
 Proof. exact lone_wildcard_model. Qed.
 Print Assumptions C04_lone_wildcard_verify.
 
+(* the native check is skipped only when a verification plugin owns
+   trusted-identity verification; then the plugin's answer decides *)
+Theorem C04_plugin_guard_native : forall rev pok log ids chain,
+  model (IPlugin false rev pok log ids chain) = model (IVerify false log ids chain).
+Proof. exact plugin_guard_native. Qed.
+Print Assumptions C04_plugin_guard_native.
+
+Theorem C04_plugin_guard_owned : forall rev pok log ids chain, validate_ids ids = WOk ->
+  model (IPlugin true rev pok log ids chain) =
+  OVerify (if pok then VPass else VPluginFail) (negb log && negb pok).
+Proof. exact plugin_guard_owned. Qed.
+Print Assumptions C04_plugin_guard_owned.
+
 (* at level strict a failed identity check rejects the signature *)
 Theorem C04_strict_rejects : forall ids chain v rej,
   model (IVerify true false ids chain) = OVerify v rej -> rej = negb (is_pass v).
